@@ -1,8 +1,220 @@
-/- placeholder: executable model to be written (see tools/BUILDER_BRIEF.md) -/
+/-
+Model of `/repo/capability` (C19): `capability.go` (NewCapability), `versionRange.go` (contains),
+`target.go` (Target.Version / SetCapabilities), `defaultVersion.go` (Has).
+
+What is transcribed (quirks included):
+* `NewCapability(desc, ss...)`: the index loop with the pending `curRange`; after the loop the
+  pending range is appended only when its `Introduced` is non-empty (so a trailing `""` is dropped).
+* `VersionRange.contains`: a range with both bounds empty contains nothing and compares nothing;
+  otherwise `fn(Introduced, version)` first (if `Introduced` is set), then `fn(version, Removed)`
+  (if `Removed` is set) — both comparisons are made for a two-sided range even when the first one
+  already decides; the first comparer error is returned.
+* `Target.SetCapabilities`: capabilities in order, ranges in order; for a two-sided range
+  `cmp(Introduced, Removed)` is evaluated BEFORE `contains` and `>= 0` is an error; evaluation of
+  a capability stops at the first containing range (`break`), so later ranges are not looked at;
+  the first error aborts everything (`Target.Version` then returns no version at all).
+* `DefaultVersion.Has`: the last value stored for the capability, `false` when nothing was
+  stored. `SetCapability(cap,false)` followed by `SetCapability(cap,true)` leaves `true`; the model
+  therefore carries the answer of a capability as the value of the loop over its ranges
+  (`false` for an empty loop). Capabilities are assumed to be distinct pointers (the harness
+  builds them so); with the same pointer twice the answers coincide anyway.
+
+Parameter (trusted base): the comparer `cmp : String → String → Except E Int`. For the default
+comparer (`VersionCompareSemantic` = hashicorp/go-version `NewVersion` + `Compare`) the driver
+receives the comparison results of the real function as a table in the case line; for the custom
+comparer the driver uses `intCmp` below, which the harness mirrors in Go.
+
+Core Lean only (linked into the driver).
+-/
 import Dblib.Util
 
 namespace Dblib.Capability
 
-def run (_args : List String) : String := "todo"
+/-- `VersionRange{Introduced, Removed}` -/
+structure Range where
+  lo : String
+  hi : String
+deriving Repr, DecidableEq, Inhabited
+
+/-! ### NewCapability -/
+
+/-- loop state of `NewCapability`: the pending `curRange` and `c.VersionRanges` -/
+structure NCState where
+  cur : Range
+  out : List Range
+
+/-- one iteration of `for i, s := range versionRanges` -/
+def ncStep (st : NCState) (i : Nat) (s : String) : NCState :=
+  if i % 2 = 0 then
+    { st with cur := { st.cur with lo := s } }                       -- curRange.Introduced = s; continue
+  else
+    { cur := ⟨"", ""⟩, out := st.out ++ [{ st.cur with hi := s }] }  -- Removed = s; append; reset
+
+def ncLoop : Nat → List String → NCState → NCState
+  | _, [], st => st
+  | i, s :: ss, st => ncLoop (i + 1) ss (ncStep st i s)
+
+/-- `NewCapability(_, ss...).VersionRanges` -/
+def newCapability (ss : List String) : List Range :=
+  let st := ncLoop 0 ss ⟨⟨"", ""⟩, []⟩
+  if st.cur.lo ≠ "" then st.out ++ [st.cur] else st.out
+
+/-! ### VersionRange.contains -/
+
+/-- `vrange.contains(fn, version)` -/
+def contains {E : Type} (cmp : String → String → Except E Int) (r : Range) (v : String) :
+    Except E Bool :=
+  if r.lo = "" ∧ r.hi = "" then .ok false
+  else if r.lo ≠ "" then
+    match cmp r.lo v with
+    | .error e => .error e
+    | .ok lower =>
+      if r.hi = "" then .ok (decide (lower ≤ 0))
+      else
+        match cmp v r.hi with
+        | .error e => .error e
+        | .ok upper => .ok (decide (lower ≤ 0) && decide (upper < 0))
+  else
+    match cmp v r.hi with
+    | .error e => .error e
+    | .ok upper => .ok (decide (upper < 0))
+
+/-! ### Target.SetCapabilities -/
+
+/-- the two kinds of error `SetCapabilities` returns -/
+inductive Err (E : Type) where
+  | compare (e : E)   -- the comparer rejected a bound or the version
+  | invalid           -- lower bound greater than or equal to the upper bound
+deriving Repr, DecidableEq
+
+/-- the guard before `contains`: only for two-sided ranges -/
+def checkRange {E : Type} (cmp : String → String → Except E Int) (r : Range) : Except (Err E) Unit :=
+  if r.lo ≠ "" ∧ r.hi ≠ "" then
+    match cmp r.lo r.hi with
+    | .error e => .error (.compare e)
+    | .ok i => if i ≥ 0 then .error .invalid else .ok ()
+  else .ok ()
+
+/-- inner loop over the ranges of one capability; the value is what `Has` answers afterwards -/
+def evalRanges {E : Type} (cmp : String → String → Except E Int) (v : String) :
+    List Range → Except (Err E) Bool
+  | [] => .ok false
+  | r :: rs =>
+    match checkRange cmp r with
+    | .error e => .error e
+    | .ok () =>
+      match contains cmp r v with
+      | .error e => .error (.compare e)
+      | .ok true => .ok true                 -- SetCapability(cap, true); break
+      | .ok false => evalRanges cmp v rs     -- SetCapability(cap, false); next range
+
+/-- `target.Version(v)` followed by `Has` for every capability, in order -/
+def setCapabilities {E : Type} (cmp : String → String → Except E Int) :
+    List (List Range) → String → Except (Err E) (List Bool)
+  | [], _ => .ok []
+  | c :: cs, v =>
+    match evalRanges cmp v c with
+    | .error e => .error e
+    | .ok h =>
+      match setCapabilities cmp cs v with
+      | .error e => .error e
+      | .ok hs => .ok (h :: hs)
+
+/-! ### Concrete comparers for the driver -/
+
+def digitsVal : List Char → Nat → Option Nat
+  | [], acc => some acc
+  | c :: cs, acc => if '0' ≤ c ∧ c ≤ '9' then digitsVal cs (acc * 10 + (c.toNat - 48)) else none
+
+/-- optional `-`, then one or more ASCII digits -/
+def parseDec (s : String) : Option Int :=
+  match s.toList with
+  | [] => none
+  | '-' :: [] => none
+  | '-' :: cs => (digitsVal cs 0).map (fun n => - (Int.ofNat n))
+  | cs => (digitsVal cs 0).map Int.ofNat
+
+def sign3 (a b : Int) : Int := if a < b then -1 else if a = b then 0 else 1
+
+/-- the custom comparer of the harness: decimal integers, anything else is an error -/
+def intCmp (a b : String) : Except Unit Int :=
+  match parseDec a, parseDec b with
+  | some x, some y => .ok (sign3 x y)
+  | _, _ => .error ()
+
+/-- error of the table comparer: the shipped table says "error", or has no such entry -/
+inductive TblErr where
+  | rejected
+  | missing
+deriving Repr, DecidableEq
+
+abbrev Table := List ((String × String) × Option Int)
+
+def tblCmp (t : Table) (a b : String) : Except TblErr Int :=
+  match t.lookup (a, b) with
+  | none => .error .missing
+  | some none => .error .rejected
+  | some (some i) => .ok i
+
+/-! ### Line protocol -/
+
+def unItem (s : String) : String := if s = "_" then "" else s
+
+/-- one capability: `-` = no strings, else comma separated items, `_` = the empty string -/
+def parseCap (s : String) : List String :=
+  if s = "-" then [] else (s.splitOn ",").map unItem
+
+def parseCaps (s : String) : List (List Range) :=
+  (s.splitOn "|").map (fun c => newCapability (parseCap c))
+
+def parseEntry (s : String) : Option ((String × String) × Option Int) :=
+  match s.splitOn ":" with
+  | [k, val] =>
+    match k.splitOn "," with
+    | [a, b] =>
+      if val = "e" then some ((unItem a, unItem b), none)
+      else match parseDec val with
+        | some i => some ((unItem a, unItem b), some i)
+        | none => none
+    | _ => none
+  | _ => none
+
+def parseTable (s : String) : Option Table :=
+  if s = "-" then some [] else (s.splitOn ";").mapM parseEntry
+
+def showHas (hs : List Bool) : String :=
+  if hs.isEmpty then "ok -" else "ok " ++ joinSep "," (hs.map (fun b => if b then "1" else "0"))
+
+def answerInt (v : String) (caps : List (List Range)) : String :=
+  match setCapabilities intCmp caps (unItem v) with
+  | .ok hs => showHas hs
+  | .error _ => "err"
+
+def answerTbl (t : Table) (v : String) (caps : List (List Range)) : String :=
+  match setCapabilities (tblCmp t) caps (unItem v) with
+  | .ok hs => showHas hs
+  | .error (.compare .missing) => "bad-table"
+  | .error _ => "err"
+
+/-- `cap int <version> [<caps>]`, `cap tbl <table> <version> [<caps>]`,
+`cap new <cap>` (the ranges `NewCapability` builds) -/
+def run (args : List String) : String :=
+  match args with
+  | ["int", v] => answerInt v []
+  | ["int", v, caps] => answerInt v (parseCaps caps)
+  | ["tbl", t, v] =>
+    match parseTable t with
+    | some t => answerTbl t v []
+    | none => "bad-op"
+  | ["tbl", t, v, caps] =>
+    match parseTable t with
+    | some t => answerTbl t v (parseCaps caps)
+    | none => "bad-op"
+  | ["new", c] =>
+    let rs := newCapability (parseCap c)
+    if rs.isEmpty then "ranges -"
+    else "ranges " ++ joinSep "|" (rs.map (fun r =>
+      (if r.lo = "" then "_" else r.lo) ++ "," ++ (if r.hi = "" then "_" else r.hi)))
+  | _ => "bad-op"
 
 end Dblib.Capability
